@@ -56,6 +56,22 @@ static vp_ref_t vp_ref;
 static ldb_blockiter_t *vp_bi;
 static int vp_cur;
 
+/* VP_OS<k>: set of operations allowed at step k (bit i = VP_OP_* i; 31 = all).
+   Excluded operations are removed from the program of that step. */
+#ifndef VP_OS0
+#define VP_OS0 31
+#endif
+#ifndef VP_OS1
+#define VP_OS1 31
+#endif
+#ifndef VP_OS2
+#define VP_OS2 31
+#endif
+#ifndef VP_OS3
+#define VP_OS3 31
+#endif
+static const int vp_os[8] = { VP_OS0, VP_OS1, VP_OS2, VP_OS3, 31, 31, 31, 31 };
+
 static void
 vp_check(void) {
   int valid = ldb_blockiter_valid(vp_bi);
@@ -74,37 +90,35 @@ vp_check(void) {
 }
 
 static void
-vp_apply(int op, const uint8_t *t, size_t tn) {
+vp_apply(int op, int mask, const uint8_t *t, size_t tn) {
   ldb_slice_t target;
 
-  switch (op) {
-    case VP_OP_FIRST:
+  /* mask (a constant per step) removes the excluded operations from the
+     program, not only from the models */
+  if ((mask & (1 << VP_OP_FIRST)) && op == VP_OP_FIRST) {
       ldb_blockiter_first(vp_bi);
       vp_cur = vp_ref_first(&vp_ref);
-      break;
-    case VP_OP_LAST:
+  } else if ((mask & (1 << VP_OP_LAST)) && op == VP_OP_LAST) {
       ldb_blockiter_last(vp_bi);
       vp_cur = vp_ref_last(&vp_ref);
-      break;
-    case VP_OP_SEEK:
+  } else if ((mask & (1 << VP_OP_SEEK)) && op == VP_OP_SEEK) {
       target.data = (uint8_t *)t;
       target.size = tn;
       target.alloc = 0;
       ldb_blockiter_seek(vp_bi, &target);
       vp_cur = vp_ref_seek_ge(&vp_ref, t, tn);
-      break;
-    case VP_OP_NEXT:
+  } else if ((mask & (1 << VP_OP_NEXT)) && op == VP_OP_NEXT) {
       if (vp_cur < 0)
         return; /* REQUIRES: valid */
       ldb_blockiter_next(vp_bi);
       vp_cur = vp_ref_next(&vp_ref, vp_cur);
-      break;
-    default:
+  } else if ((mask & (1 << VP_OP_PREV)) && op == VP_OP_PREV) {
       if (vp_cur < 0)
         return;
       ldb_blockiter_prev(vp_bi);
       vp_cur = vp_ref_prev(&vp_ref, vp_cur);
-      break;
+  } else {
+    return;
   }
 
   vp_check();
@@ -169,10 +183,11 @@ harness(void) {
     for (k = 0; k < VP_K; k++) {
       op = vp_u8();
       VP_ASSUME(op <= VP_OP_PREV);
+      VP_ASSUME((vp_os[k] >> op) & 1);
       vp_fill(t, VP_KMAX);
       tn = vp_u8();
       VP_ASSUME(tn <= VP_KMAX);
-      vp_apply(op, t, tn);
+      vp_apply(op, vp_os[k], t, tn);
     }
 
     if (vp_cur >= 0) {
@@ -194,12 +209,12 @@ harness(void) {
   {
     int k, count = 0;
 
-    vp_apply(VP_OP_FIRST, NULL, 0);
+    vp_apply(VP_OP_FIRST, 31, NULL, 0);
 
     for (k = 0; k < VP_N; k++) {
       if (vp_cur >= 0) {
         count++;
-        vp_apply(VP_OP_NEXT, NULL, 0);
+        vp_apply(VP_OP_NEXT, 31, NULL, 0);
       }
     }
 
@@ -207,12 +222,12 @@ harness(void) {
     VP_ASSERT(count == VP_N, "forward scan yields every added entry once");
 
     count = 0;
-    vp_apply(VP_OP_LAST, NULL, 0);
+    vp_apply(VP_OP_LAST, 31, NULL, 0);
 
     for (k = 0; k < VP_N; k++) {
       if (vp_cur >= 0) {
         count++;
-        vp_apply(VP_OP_PREV, NULL, 0);
+        vp_apply(VP_OP_PREV, 31, NULL, 0);
       }
     }
 
